@@ -3,6 +3,7 @@ package main
 import (
 	"fmt"
 	"go/types"
+	"math/big"
 	"strings"
 
 	"golang.org/x/tools/go/ssa"
@@ -340,30 +341,90 @@ func (e *Exec) eqVal(a, b Value) *Term {
 func (e *Exec) symStrEq(x, y *SymStr) *Term {
 	c := e.ctx
 	x, y = normSym(x), normSym(y)
-	// both fully literal?
+	// concrete string against a template with %d arguments: parse the digits
+	if len(x.parts) == 1 {
+		if xs, ok := x.parts[0].(string); ok {
+			return e.matchTemplate(xs, y)
+		}
+	}
+	if len(y.parts) == 1 {
+		if ys, ok := y.parts[0].(string); ok {
+			return e.matchTemplate(ys, x)
+		}
+	}
+	if len(x.parts) == 0 || len(y.parts) == 0 {
+		return c.Bool(len(x.parts) == len(y.parts))
+	}
 	if len(x.parts) != len(y.parts) {
-		// A template mismatch: different literal skeletons. Sound only under the
-		// "verbs separated by non-digit literals" discipline (checked at Sprintf).
-		return c.False
+		panic(pathAbort{"error", "comparison of symbolic strings of different shape: " + x.String() + " vs " + y.String()})
 	}
 	r := c.True
 	for i := range x.parts {
 		switch p := x.parts[i].(type) {
 		case string:
 			q, ok := y.parts[i].(string)
-			if !ok || p != q {
+			if !ok {
+				panic(pathAbort{"error", "comparison of symbolic strings of different shape: " + x.String() + " vs " + y.String()})
+			}
+			if p != q {
 				return c.False
 			}
 		case symPart:
 			q, ok := y.parts[i].(symPart)
-			if !ok || p.verb != q.verb {
-				return c.False
-			}
-			if p.t.sort != q.t.sort {
-				return c.False
+			if !ok || p.verb != q.verb || p.t.sort != q.t.sort {
+				panic(pathAbort{"error", "comparison of symbolic strings of different shape: " + x.String() + " vs " + y.String()})
 			}
 			r = c.And(r, c.Eq(p.t, q.t))
 		}
+	}
+	return r
+}
+
+// matchTemplate decides s == tmpl for a concrete s; only %d arguments
+// (decimal integers followed by a non-digit literal or the end) are supported.
+func (e *Exec) matchTemplate(s string, tmpl *SymStr) *Term {
+	c := e.ctx
+	r := c.True
+	pos := 0
+	for i, p := range tmpl.parts {
+		switch p := p.(type) {
+		case string:
+			if !strings.HasPrefix(s[pos:], p) {
+				return c.False
+			}
+			pos += len(p)
+		case symPart:
+			if p.verb != "%d" || p.t.sort.K == SBool {
+				panic(pathAbort{"error", "comparison of a string with a symbolic " + p.verb + " argument"})
+			}
+			if i+1 < len(tmpl.parts) {
+				if nx, ok := tmpl.parts[i+1].(string); !ok || (len(nx) > 0 && nx[0] >= '0' && nx[0] <= '9') {
+					panic(pathAbort{"error", "ambiguous symbolic string template " + tmpl.String()})
+				}
+			}
+			j := pos
+			for j < len(s) && s[j] >= '0' && s[j] <= '9' {
+				j++
+			}
+			if j == pos {
+				return c.False // (negative numbers never appear in job names)
+			}
+			if j-pos > 1 && s[pos] == '0' {
+				return c.False
+			}
+			n, ok := new(big.Int).SetString(s[pos:j], 10)
+			if !ok {
+				return c.False
+			}
+			if p.t.sort.K == SBV && n.BitLen() > p.t.sort.W {
+				return c.False
+			}
+			r = c.And(r, c.Eq(p.t, c.Const(p.t.sort, n)))
+			pos = j
+		}
+	}
+	if pos != len(s) {
+		return c.False
 	}
 	return r
 }
